@@ -1,11 +1,16 @@
 //! Harness binary `h_kad_b <PROP> --seed S --tier T [--count N] [--replay F]`.
 //! One module per property (`cNN.rs`, `pub fn run(args: &hcore::Args, out: &mut hcore::Out)`).
 
+mod c39;
+mod c41;
+
 fn main() {
     let args = hcore::Args::parse();
     hcore::quiet_panics();
     let mut out = hcore::Out::new();
     match args.prop.as_str() {
+        "C39" => c39::run(&args, &mut out),
+        "C41" => c41::run(&args, &mut out),
         p => {
             let _ = &mut out;
             eprintln!("h_kad_b: unknown property {p}");
